@@ -316,7 +316,10 @@ def cache_embeddings(func):
         embedding_engine = getattr(self, "embedding_engine", None)
         embedding_model = getattr(self, "embedding_model", None)
         if embedding_engine or embedding_model:
-            embeddings_cache.key_prefix = f"{embedding_engine}/{embedding_model}:"
+            # (JSON, such that no model name and text can be confused with another pair)
+            embeddings_cache.key_prefix = json.dumps(
+                [embedding_engine, embedding_model]
+            )
 
         cached_texts = {}
         uncached_texts = []
